@@ -473,10 +473,12 @@ def mro_context(parent):
             current_mro.reset(token)
 
 
-def get_mro_parameters(method_name, get_parameters_fn, logger):
+def get_mro_parameters(method_name, get_parameters_fn, logger, current_method=None):
     classes, idx = current_mro.get()
     for num, cls in enumerate(classes[idx + 1 :], start=idx + 1):
         method = getattr(cls, method_name, None)
+        if method is not None and method is current_method:
+            continue  # the class at the cursor inherits the method being resolved from cls: continue after cls
         remainder = classes[num + 1 :] + [object]
         if method and not any(method is getattr(c, method_name, None) for c in remainder):
             current_mro.set((classes, num))
@@ -798,6 +800,7 @@ class ParametersVisitor(LoggerProperty, ast.NodeVisitor):
                             node.func.attr,  # type: ignore[attr-defined]
                             get_signature_parameters,
                             self.logger,
+                            current_method=self.component,
                         )
                 else:
                     get_param_args = self.get_node_component(node, source)
